@@ -9,7 +9,7 @@
 From Coq Require Import NArith ZArith List Bool.
 From ST Require Import Base.Outcome Base.Units Utf.Spec Utf.Tokens Utf.Model Utf.ProofsC01 Utf.ProofsC03 Utf.ApiCoverage.
 From ST Require Utf.LeafBridge Gen.Leaf.
-From ST Require Utf.LoopBridge.
+From ST Require Utf.LoopBridge Utf.LoopBridgeMeasure.
 Import ListNotations.
 Local Open Scope N_scope.
 
@@ -126,3 +126,26 @@ Proof.
     (fun A => ST.Utf.LoopBridge.utf8_measure_from_latin_1_matches_source l fuel A Hb Hf)).
 Qed.
 Print Assumptions measuring_loops_match_source.
+
+(* the four measuring passes that decode their input (each calls the translated decoder extract_utf8 / extract_utf16,
+   which advances the loop's pointer) *)
+Theorem decoding_measure_loops_match_source : forall l fuel,
+  (4 * Z.of_nat (length l) < 18446744073709551616)%Z -> (length l < fuel)%nat ->
+  (all_lt 65536 l = true ->
+     (exists n, utf8_measure_from_utf16 (Some l) = Ok n /\
+        ST.Gen.Leaf.src_utf8_measure_from_utf16 fuel (ST.Utf.LoopBridge.arr32 l) (Z.of_nat (length l)) = Some (Z.of_nat n)) /\
+     (exists n, utf32_measure_from_utf16 (Some l) = Ok n /\
+        ST.Gen.Leaf.src_utf32_measure_from_utf16 fuel (ST.Utf.LoopBridge.arr32 l) (Z.of_nat (length l)) = Some (Z.of_nat n))) /\
+  (all_lt 256 l = true ->
+     (exists n, utf16_measure_from_utf8 (Some l) = Ok n /\
+        ST.Gen.Leaf.src_utf16_measure_from_utf8 fuel (ST.Utf.LoopBridge.arr8s l) (Z.of_nat (length l)) = Some (Z.of_nat n)) /\
+     (exists n, utf32_measure_from_utf8 (Some l) = Ok n /\
+        ST.Gen.Leaf.src_utf32_measure_from_utf8 fuel (ST.Utf.LoopBridge.arr8s l) (Z.of_nat (length l)) = Some (Z.of_nat n))).
+Proof.
+  exact (fun l fuel Hb Hf => conj
+    (fun A => conj (ST.Utf.LoopBridgeMeasure.utf8_measure_from_utf16_matches_source l fuel A Hb Hf)
+                   (ST.Utf.LoopBridgeMeasure.utf32_measure_from_utf16_matches_source l fuel A Hb Hf))
+    (fun A => conj (ST.Utf.LoopBridgeMeasure.utf16_measure_from_utf8_matches_source l fuel A Hb Hf)
+                   (ST.Utf.LoopBridgeMeasure.utf32_measure_from_utf8_matches_source l fuel A Hb Hf))).
+Qed.
+Print Assumptions decoding_measure_loops_match_source.
